@@ -434,6 +434,7 @@ class C08(Prop):
         if r < 0.05: ops.append("degen c=%d ds=%s" % (sym[Kp - 3], hx(sym[:1])))
         elif r < 0.10: ops.append("degen c=%d ds=%s" % (sym[rng.randrange(0, K + 1)], hx(sym[:1])))
         elif r < 0.13: ops.append("degen c=%d ds=%s" % (unused[1], hx(sym[:1])))
+        elif r < 0.25: ops.append("degen c=%d ds=%s" % (sym[rng.choice([K, Kp - 2, Kp - 1, Kp - 3])], hx(sym[:rng.randrange(1, K + 1)])))
         if rng.random() < 0.7: ops.append("caseins")
         if rng.random() < 0.5:
             ignored = rng.sample([c for c in [32, 9, 48, 49, 50, 57] + unused[5:9] if c not in sym and c not in equivs], 2)
@@ -571,6 +572,8 @@ class C08(Prop):
                 want = bytes(a.sym[x] for x in dsq[1:-1])
                 if t[0] != "ok" or got != want:
                     return Failure("monitor", "textize: not the canonical symbol of each code")
+                if "nul=1" not in t:
+                    return Failure("monitor", "textize: the text is not NUL-terminated after L characters")
                 txt = got; txt_dsq = dsq
             elif name == "revcomp":
                 if dsq is None: continue
@@ -675,7 +678,11 @@ class C08(Prop):
             n = len(op)
             b = "<64" if n < 64 else "<1k" if n < 1024 else "<8k" if n < 8192 else ">=8k"
             st["arg_bytes"][b] = st["arg_bytes"].get(b, 0) + 1
-        return self._monitor(ctx, case, out)
+        try:
+            return self._monitor(ctx, case, out)
+        except Exception as e:      # an answer the monitor cannot even parse is itself a wrong answer
+            bad = next((l for l in out if not l.startswith(("ok", "st=", "dig=", "e", "bad-op", "null", "fault", "atexit"))), out[-1] if out else "")
+            return Failure("monitor", "unexpected answer from the implementation (%s: %s): %s" % (type(e).__name__, e, bad[:80]))
 
     def extra_evidence(self, ctx):
         return {"input_distribution": getattr(self, "_dist", {}), "table_rows_dumped": {t["name"]: t["Kp"] for t in getattr(self, "_tabs", [])}}
